@@ -479,7 +479,7 @@ class Renderer:
                 self.lines.append(' ' * R.randint(0, 12) + '#' + rand_comment(R, '\'"'))
                 self.classes.add('comment-line')
 
-    def trailing(self, avoid=''):
+    def trailing(self, avoid='', minblank=0):
         """trailing comment (possibly none); avoid = quote characters that must not appear in it"""
         if self.plain:
             return ''
@@ -492,7 +492,7 @@ class Renderer:
                 c = c.replace(q, '')
             if allow and any(q in c for q in allow):
                 self.classes.add('comment-with-quote-char')
-            return ' ' * R.randint(0, 3) + '#' + c
+            return ' ' * R.randint(minblank, 3) + '#' + c
         if R.random() < 0.15:
             return ' ' * R.randint(1, 3)       # trailing blanks
         return ''
@@ -709,7 +709,7 @@ class Renderer:
             if '-' in it['name']:
                 self.classes.add('name-with-hyphen')
             if it['k'] == 'group':
-                self.lines.append(self.indent_str(cur) + it['name'] + self.trailing())
+                self.lines.append(self.indent_str(cur) + it['name'] + self.trailing(minblank=1))
                 self.classes.add('group')
             elif it['k'] == 'leaf':
                 self.leaf_line(it, path, cur)
